@@ -259,7 +259,17 @@ pub fn supervise(nw: u64, mk: &dyn Fn(u64) -> Command) -> Result<(Vec<String>, V
         let (lines, st, hung) = h.join().map_err(|_| "collector thread panicked".to_string())?;
         let has_summary = lines.iter().any(|l| l.starts_with("{\"summary\""));
         let last_at = lines.iter().rev().find_map(|l| l.strip_prefix("{\"at\":").and_then(|x| x.trim_end_matches('}').parse::<u64>().ok()));
-        all.extend(lines.into_iter().filter(|l| !l.starts_with("{\"at\":")));
+        // was the worker inside native code of the program under test (C driver, print runtime)
+        // when it ended? then the crash is a finding about that program, not about the compiler
+        let mut native: Option<String> = None;
+        for l in &lines {
+            if let Some(c) = l.strip_prefix("{\"native\":") {
+                native = Some(c.strip_suffix('}').unwrap_or(c).to_string());
+            } else if l.starts_with("{\"native_done\"") {
+                native = None;
+            }
+        }
+        all.extend(lines.into_iter().filter(|l| !l.starts_with("{\"at\":") && !l.starts_with("{\"native")));
         match st {
             Some(0) | Some(2) if has_summary => {}
             None | Some(_) if !has_summary && st != Some(2) => {
@@ -270,7 +280,10 @@ pub fn supervise(nw: u64, mk: &dyn Fn(u64) -> Command) -> Result<(Vec<String>, V
                 if restarts > 20_000 {
                     return Err("too many worker crashes".into());
                 }
-                if hung {
+                if let Some(ctx) = native.filter(|_| !hung) {
+                    all.push(format!("{{\"found\":{ctx}}}"));
+                    notes.push(format!("unit of work {at}: the program under test crashed the worker process inside its C driver or runtime (status {st:?}); reported as a finding"));
+                } else if hung {
                     notes.push(format!("unit of work {at}: no progress for {} s (the compiler under test did not terminate); worker killed, run skipped", limit.as_secs()));
                 } else {
                     notes.push(format!("unit of work {at}: the compiler under test crashed the worker process (status {st:?}, e.g. stack overflow); skipped"));
